@@ -177,10 +177,25 @@ def judge_call(obj, args, kwargs, result, expect_outside=False, twin_logd=None):
     tol = ERR_FACTOR * err + RTOL_COMP * np.abs(R) + RTOL_VEC * scale + 1e-10
     if ev["mode"] == "fd":
         eps = float(getattr(obj, "FD_epsilon", 1e-8) or 1e-8)
+        # (a) the forward-difference quotient of the same object's logd with the configured epsilon, recomputed here
+        try:
+            Q = FD.forward_quotient(fscalar, x, eps)
+            qtol = 1e-6 * np.abs(Q) + 1e-8 * scale + 32 * FD.EPS * max(abs(f0), 1.0) / eps + 1e-10
+            with np.errstate(invalid="ignore"):
+                if np.all(np.isfinite(Q)) and np.all(np.abs(g - Q) <= qtol):
+                    ev.update(status="ok", ncomp=int(x.size), headroom_ok=True, fd_ref="forward_quotient")
+                    return ev
+        except Exception:  # noqa
+            pass
+        # (b) otherwise: the derivative itself, within the modelled error of a forward difference
         try:
             H = FD.second_derivative_diag(fscalar, x)
         except Exception:  # noqa
             H = np.full(x.size, np.nan)
+        usable = usable & np.isfinite(H)
+        if not np.any(usable):
+            ev["why"] = "curvature estimate unavailable"
+            return ev
         H = np.where(np.isfinite(H), np.abs(H), 0.0)
         # forward difference: truncation eps*|f''|/2 (+ next term), round-off 2 ulp(f)/eps
         tol = tol + 20.0 * (0.5 * eps * H + eps ** 2 * max(scale, 1.0) + 8 * FD.EPS * max(abs(f0), 1.0) / eps) + 1e-3 * eps * max(scale, 1.0)
@@ -323,6 +338,8 @@ class Probe:
             ctx.count("components_compared", ev["ncomp"])
             if ev["mode"] == "fd":
                 ctx.count("fd_option_compared")
+                if ev.get("fd_ref") == "forward_quotient":
+                    ctx.count("fd_option_equals_forward_quotient")
             if chain and not nested:
                 ctx.count("chain_rule_compared")
             if nested:
@@ -526,7 +543,7 @@ DGEOMS = IDENTITY_GEOMS[:3] + ("image2d", "image2d_F") + GRAD_GEOMS + REFUSE_GEO
 RGEOMS = ("default", "cont1d", "mapped")
 PRIORS = ("gaussian_cov", "gaussian_prec", "gaussian_geom", "gmrf", "cmrf", "cauchy", "smoothedlaplace", "beta", "inversegamma",
           "lognormal", "uniform", "laplace", "lmrf", "userdefined")
-SAMPLERS = ("NUTS", "MALA", "ULA", "expNUTS", "expMALA", "expULA")
+SAMPLERS = ("NUTS", "MALA", "ULA", "expNUTS", "expMALA", "expULA", "MAP")
 TESTPROBLEMS = ("Deconvolution1D", "WangCubic", "Abel1D", "Deconvolution2D", "Poisson1D", "Heat1D")
 
 
@@ -1202,8 +1219,11 @@ def _run_sampler(case, ctx, mon, rs):
                 s = cuqi.experimental.mcmc.NUTS(P, initial_point=x0, max_depth=4); s.warmup(3); s.sample(3)
             elif name == "expMALA":
                 s = cuqi.experimental.mcmc.MALA(P, scale=1e-3, initial_point=x0); s.sample(8)
-            else:
+            elif name == "expULA":
                 s = cuqi.experimental.mcmc.ULA(P, scale=1e-3, initial_point=x0); s.sample(8)
+            else:
+                BP = cuqi.problem.BayesianProblem(L.distribution, prior).set_data(**{L.distribution.name: L.data})
+                BP.MAP(disp=False, x0=x0)
         k, e = core.outcome(run)
     finally:
         np.random.set_state(st)
